@@ -87,11 +87,25 @@ class Poly:
         if sg:
             k, (a, b) = sg; n = a * a + b * b
             return Poly({tuple((at, -e) for at, e in k): (a / n, -b / n)})
-        # factor out content so that 1/(2x+2y) == (1/2)·1/(x+y): normalise leading coefficient
-        lead_k = min(s.t, key=_akey); a, b = s.t[lead_k]; n = a * a + b * b
+        # factor out the common monomial (pi·x + pi·y = pi·(x+y)) and the leading coefficient: 1/(2 pi x + 2 pi y) == 1/2 · pi^-1 · 1/(x+y)
+        common = None
+        for k in s.t:
+            d = dict(k)
+            if common is None: common = d
+            else: common = {at: min(e, d[at]) for at, e in common.items() if at in d and (e > 0) == (d[at] > 0)}
+        common = {at: e for at, e in (common or {}).items() if e != 0}
+        rest = s
+        if common:
+            cm_inv = Poly({tuple(sorted(((at, -e) for at, e in common.items()), key=_akey)): (F(1), F(0))})
+            rest = s * cm_inv
+        else:
+            cm_inv = Poly.const(1)
+        lead_k = min(rest.t, key=_akey); a, b = rest.t[lead_k]; n = a * a + b * b
         c_inv = Poly.const(a / n, -b / n)
-        normed = s * c_inv
-        return Poly.atom(('inv', normed.key())) * c_inv
+        normed = rest * c_inv
+        sg = normed.single()
+        if sg is not None: return normed.inv() * c_inv * cm_inv
+        return Poly.atom(('inv', normed.key())) * c_inv * cm_inv
 
     def powr(s, e: F):
         if e == 0: return Poly.const(1)
@@ -215,10 +229,21 @@ class Opq:
 RAISE = Opq('RAISE')
 
 
+def _assume(v, gk, val):
+    """simplify term v knowing that the guard with key gk has truth value val"""
+    if isinstance(v, Cond):
+        if tkey(v.g) == gk: return _assume(v.a if val else v.b, gk, val)
+        return Cond(v.g, _assume(v.a, gk, val), _assume(v.b, gk, val))
+    return v
+
+
 class Cond:
     def __new__(cls, g, a, b):
         if g is True: return a
         if g is False: return b
+        gk = tkey(g)
+        if isinstance(a, Cond): a = _assume(a, gk, True)
+        if isinstance(b, Cond): b = _assume(b, gk, False)
         if tkey(a) == tkey(b): return a
         o = object.__new__(cls); o.g = g; o.a = a; o.b = b
         return o
@@ -339,6 +364,8 @@ class Evaluator:
         s.mutations: list = []
         s.opaque_fns: set = set()          # {(module short, function name)} kept as uninterpreted functions
         s.opaque_classes: set = set()      # class names whose instances stay atoms
+        s.integer: set = set()             # atoms declared integer-valued (mod folding)
+        s.mod_facts: dict = {}             # (poly key, modulus) -> residue, declared by a rule for a case split
         s.assume_finite = True             # np.isfinite(x) folds to True (recorded by the rules as an assumption)
         s.raises: list = []                # pruned raise branches: guard, polarity, exception name, path condition
         s._pc: list = []
@@ -347,7 +374,7 @@ class Evaluator:
     def fresh(s):
         """evaluator with the same configuration but none of the facts / stores learnt while evaluating code (used for specifications)"""
         e = Evaluator(s.prog, s.real, s._init_facts, s.depth_limit)
-        e.opaque_fns = set(s.opaque_fns); e.opaque_classes = set(s.opaque_classes); e.assume_finite = s.assume_finite
+        e.opaque_fns = set(s.opaque_fns); e.opaque_classes = set(s.opaque_classes); e.integer = set(s.integer); e.mod_facts = dict(s.mod_facts); e.assume_finite = s.assume_finite
         return e
 
     def learn(s, g, polarity: bool, exc=None, top=True):
@@ -512,6 +539,15 @@ class Evaluator:
         if isinstance(op, ast.Mod):
             ca, cb = pa.real_const(), pb.real_const()
             if ca is not None and cb is not None and cb != 0: return Poly.const(ca % cb)
+            if cb is not None and (pa.key(), cb) in s.mod_facts: return Poly.const(s.mod_facts[(pa.key(), cb)])
+            if cb is not None and cb != 0 and cb.denominator == 1 and pa.t:
+                # polynomial in declared integer atoms whose non-constant coefficients are multiples of the modulus
+                okint = True; const = F(0)
+                for k, (a, b) in pa.t.items():
+                    if b != 0: okint = False; break
+                    if k == (): const = a; continue
+                    if not all(at in s.integer and e.denominator == 1 and e > 0 for at, e in k) or a.denominator != 1 or a % cb != 0: okint = False; break
+                if okint and const.denominator == 1: return Poly.const(const % cb)
             return Poly.atom(('mod', pa.key(), pb.key()))
         if isinstance(op, ast.FloorDiv): return Poly.atom(('floor', (pa * pb.inv()).key()))
         if isinstance(op, ast.Pow):
@@ -1055,6 +1091,7 @@ class Evaluator:
         if isinstance(a, Cond):
             return Cond(a.g, s.npcall(name, [a.a] + list(args[1:]), kw), s.npcall(name, [a.b] + list(args[1:]), kw))
         if name == 'isfinite': return True if s.assume_finite else Opq('isfinite', a)
+        if name == 'ones': return Poly.const(1)
         if name in ('vectorize', 'array', 'float') and len(args) == 1:
             if isinstance(a, Opq) and a.k and a.k[0] == 'Σ': return a
             return a
